@@ -7,7 +7,7 @@ Import ListNotations.
 
 (* the same configuration with other Extract results *)
 Definition with_extract (c : cfg) (f : list N -> list N -> xres) : cfg := {|
-  c_exts := c_exts c; c_required := c_required c; c_extract := f; c_pat := c_pat c;
+  c_exts := c_exts c; c_required := c_required c; c_statreq := c_statreq c; c_extract := f; c_pat := c_pat c;
   c_skip_list := c_skip_list c; c_re := c_re c; c_glob := c_glob c; c_gitignore := c_gitignore c;
   c_ignore_subdirs := c_ignore_subdirs c; c_paths := c_paths c; c_symlinks := c_symlinks c;
   c_max_inodes := c_max_inodes c; c_max_size := c_max_size c; c_fatal := c_fatal c; c_cancel := c_cancel c |}.
@@ -52,12 +52,12 @@ Section Confine.
     sim_res (run_exts c p size ff es checked st) (run_exts c' p size ff es checked st').
   Proof.
     induction es as [|e es IH]; intros checked st st' H; cbn [run_exts]; [split; [reflexivity|exact H]|].
-    change (c_required c' e p) with (c_required c e p). change (c_max_size c') with (c_max_size c).
+    change (req c' e p size ff) with (req c e p size ff). change (c_max_size c') with (c_max_size c).
     assert (H0 : sk (add_event st (EReq e p)) = sk (add_event st' (EReq e p))) by sk_solve.
     pose proof (run_extractor_sim e p ff _ _ H0) as RX.
-    destruct (c_required c e p); [|apply IH; exact H0].
+    destruct (req c e p size ff); [|apply IH; exact H0].
     destruct ((0 <? c_max_size c)%Z && negb checked).
-    - destruct (ff_stat ff); [split; [reflexivity|exact H0]|].
+    - change (c_fatal c') with (c_fatal c). destruct (ff_stat ff); [destruct (c_fatal c); (split; [reflexivity|exact H0])|].
       destruct (c_max_size c <? size)%Z; [split; [reflexivity|exact H0]|].
       destruct (run_extractor c e p ff (add_event st (EReq e p))) as [s1 g1|s1 pc1],
                (run_extractor c' e p ff (add_event st' (EReq e p))) as [s2 g2|s2 pc2]; cbn [sim_res] in RX; try contradiction.
